@@ -58,7 +58,9 @@ fn single_line_comment_p() -> impl Parser<StringView, Output = Statements, Error
 }
 
 fn single_line_else_p() -> impl Parser<StringView, Output = Statements, Error = ParserError> {
-    lead_ws(keyword(Keyword::Else))
+    // the blank before ELSE may already have been read by the statement before it:
+    // a PRINT that ends in a separator, or a bare PRINT, reads the blanks after it
+    lead_opt_ws(keyword(Keyword::Else))
         .and_keep_right(single_line_statements_p().or_expected("Statements for single line ELSE"))
 }
 
